@@ -135,7 +135,103 @@ def showMap (m : BMMap) : String :=
      | none => "_"
      | some (s, a) => showShape s ++ "/" ++ showOptNat a)
 
-def handle : List String → String
+
+/-! ### phase-3 extension: mapping / XML round trips and to_header -/
+
+/-- generic separated list: `-` = empty -/
+def parseSep? {α} (sep : String) (f : String → Option α) (s : String) : Option (List α) :=
+  if s = "-" then some [] else (s.splitOn sep).mapM f
+
+/-- label entry `key/name/r.g.b.a` -/
+def parseLEntry? (s : String) : Option LEntry :=
+  match s.splitOn "/" with
+  | [k, n, c] =>
+    match k.toInt?, n.toNat?, (c.splitOn ".").mapM (·.toNat?) with
+    | some k, some n, some [r, g, b, a] => some ⟨k, n, r, g, b, a⟩
+    | _, _, _ => none
+  | _ => none
+
+/-- tables `t|t|…`, table = `e;e;…` (an empty table is outside the model: not written to XML at all) -/
+def parseTables? (s : String) : Option (List LTable) :=
+  parseSep? "|" (fun t => match parseSep? ";" parseLEntry? t with
+    | some [] => none
+    | r => r) s
+
+def showLEntry (e : LEntry) : String := s!"{e.key}/{e.name}/{e.r}.{e.g}.{e.b}.{e.a}"
+def showLabelR (a : LabelR) : String :=
+  s!"ax {a.name.length} " ++ joinOr ";" ((zip3 a.name a.table a.mta).map (fun e =>
+    s!"{e.1}:{e.2.2}:[" ++ ",".intercalate (e.2.1.map showLEntry) ++ "]"))
+
+/-- inner lists use `_` for empty (`-` is the empty OUTER list) -/
+def parseVoxList? (s : String) : Option (List Vox) := if s = "_" then some [] else parseSep? ";" parseVox? s
+def parseVDict? (s : String) : Option VDict :=
+  if s = "_" then some [] else
+  parseSep? ";" (fun e => match e.splitOn ":" with
+    | [k, v] => match k.toNat?, parseSep? "." (·.toNat?) v with
+      | some k, some v => some (k, v)
+      | _, _ => none
+    | _ => none) s
+
+def showVDict (d : VDict) : String :=
+  joinOr ";" (d.map (fun e => s!"{e.1}:" ++ joinOr "." (e.2.map toString)))
+def showDictOrdered (d : Dict) : String := joinOr "," (d.map (fun p => s!"{p.1}:{p.2}"))
+def showParcelsR (a : ParcelsR) : String :=
+  s!"ax {a.name.length} " ++ joinOr "|" ((zip3 a.name a.voxels a.vertices).map (fun e =>
+    s!"{e.1}/" ++ joinOr ";" (e.2.1.map showVox) ++ "/" ++ showVDict e.2.2)) ++
+  s!" nv={showDictOrdered a.nvertices} aff={showOptNat a.affine} shp={showShape a.shape}"
+
+/-- the axes of the `hdr` stream: series or scalar axes (`__eq__` = structural equality on the modelled fields;
+    axes of different classes are never equal) -/
+inductive AnyAx
+  | ser (s : Series)
+  | sc (s : Scalar)
+  deriving DecidableEq
+
+def parseAnyAx? (s : String) : Option AnyAx :=
+  if s.startsWith "S" then
+    match parseSeries? (((s.drop 1).toString).splitOn ".") with
+    | some a => some (.ser a)
+    | none => none
+  else if s.startsWith "C" then
+    match ((s.drop 1).toString).splitOn "/" with
+    | [n, m] => match parseNatList? n, parseNatList? m with
+      | some n, some m => if n.length = m.length then some (.sc ⟨n, m⟩) else none
+      | _, _ => none
+    | _ => none
+  else none
+
+def showAnyAx : AnyAx → String
+  | .ser a => s!"S{a.start}.{a.step}.{a.size}.{a.unit}"
+  | .sc a => s!"C{joinOr "," (a.name.map toString)}/{joinOr "," (a.mta.map toString)}"
+
+def handleExt : List String → Option String
+  | ["ser", a, b, c, d, "map"] =>
+    match parseSeries? [a, b, c, d] with
+    | some ax => some (showSeries (seriesFromMapping (seriesToMapping ax)) ++ s!" exp={(seriesToMapping ax).exponent}")
+    | none => some "bad-op"
+  | ["sc", n, m, "xrt"] =>
+    match parseScalar? [n, m] with
+    | some ax => some (out showScalar (ax >>= fun a => scalarFromMapping (scalarToMapping a)))
+    | none => some "bad-op"
+  | ["lar", n, m, t, "xrt"] =>
+    match parseNatList? n, parseNatList? m, parseTables? t with
+    | some n, some m, some t => some (out showLabelR (labelRMk n t m >>= labelRXrt))
+    | _, _, _ => some "bad-op"
+  | ["par", n, v, w, nv, aff, shp, "xrt"] =>
+    match parseNatList? n, parseSep? "|" parseVoxList? v, parseSep? "|" parseVDict? w, parseDict? nv,
+      parseOptNat? aff, parseShape? shp with
+    | some n, some v, some w, some nv, some aff, some shp =>
+      some (out showParcelsR (parcelsRMk n v w aff shp nv >>= fun a => parcelsRFromMapping (parcelsRToMapping a)))
+    | _, _, _, _, _, _ => some "bad-op"
+  | ["hdr", axes] =>
+    match parseSep? "|" parseAnyAx? axes with
+    | some l =>
+      some (joinOr "|" ((toHeader (fun x y => decide (x = y)) l).map (fun m =>
+        ",".intercalate (m.1.map toString) ++ "=" ++ showAnyAx m.2)))
+    | none => some "bad-op"
+  | _ => none
+
+def handleMain : List String → String
   -- ------------------------------------------------------------------ SeriesAxis
   | ["ser", a, b, c, d, "idx", i] =>
     match parseSeries? [a, b, c, d], parseIndex? i with
@@ -209,6 +305,11 @@ def handle : List String → String
             pure (m, r))
     | _ => "bad-op"
   | _ => "bad-op"
+
+def handle (l : List String) : String :=
+  match handleExt l with
+  | some r => r
+  | none => handleMain l
 
 end Nb.Drv.C18
 
